@@ -64,5 +64,8 @@ Next == UNCHANGED vars
 StaysInside == MCreates => RCreatedOK(Target(MPath).parent)
 \* what the unrepaired code would do, kept to show the requirement is not vacuous: some name escapes
 EscapeExists == \E nm \in Strings : LET t == Target(DestStr \o <<SLASH>> \o nm) IN t.ok /\ t.parent # Dest
-Emit == PrintT(<<"CASE", ToJson([name |-> name, dirc |-> dirc, trailing |-> trailing])>>)
+\* would this entry leave the destination if its name were appended unchecked?  (used to place such entries at every
+\* catalogue position in the replay)
+EscapesUnchecked == LET t == Target(DestStr \o <<SLASH>> \o Basename) IN t.ok /\ t.parent # Dest
+Emit == PrintT(<<"CASE", ToJson([name |-> name, dirc |-> dirc, trailing |-> trailing, escapes |-> EscapesUnchecked])>>)
 =============================================================================
